@@ -243,6 +243,61 @@ func (g *gen) strValue(op string) string {
 	return w
 }
 
+// likeable: a value a LIKE pattern can be cut from as it stands (ASCII, no pattern metacharacter, has a letter)
+func likeable(v string) bool {
+	letter := false
+	for _, c := range []byte(v) {
+		if c >= 0x80 || c < 0x20 || c == '*' || c == '?' || c == '[' || c == ']' || c == '\\' {
+			return false
+		}
+		if c >= 'a' && c <= 'z' || c >= 'A' && c <= 'Z' {
+			letter = true
+		}
+	}
+	return letter
+}
+
+func (g *gen) likeOnFunc(pre, name, val string) string {
+	r := g.r
+	n := r.PickInt(1, 1, 2, 3)
+	if n > g.maxNest {
+		n = g.maxNest
+	}
+	s := pre + name
+	upper := false
+	for i := 0; i < n; i++ {
+		upper = r.Chance(1, 2)
+		fn := r.PickStr("LOWER", "lower", "LoWeR")
+		if upper {
+			fn = r.PickStr("UPPER", "upper", "Upper")
+		}
+		s = fn + g.osp() + "(" + g.osp() + s + g.osp() + ")"
+	}
+	g.kinds["func"] = true
+	pat := strings.ToLower(val)
+	if upper {
+		pat = strings.ToUpper(val)
+	}
+	if r.Chance(1, 8) {
+		pat = val // as stored: matches only if the function leaves the value alone
+	}
+	switch r.Intn(5) {
+	case 0:
+		pat = pat[:1+r.Intn(len(pat))] + "*"
+	case 1:
+		pat = "*" + pat[r.Intn(len(pat)):]
+	case 2:
+		i := r.Intn(len(pat))
+		pat = pat[:i] + "?" + pat[i+1:]
+	case 3:
+		i := r.Intn(len(pat))
+		if c := pat[i]; c >= 'a' && c <= 'z' || c >= 'A' && c <= 'Z' || c >= '0' && c <= '9' {
+			pat = pat[:i] + "[" + pat[i:i+1] + "]" + pat[i+1:]
+		}
+	}
+	return s + g.sp() + g.kw("LIKE") + g.sp() + g.value(pat)
+}
+
 var strOps = []string{"CONTAINS", "PREFIX", "SUFFIX", "LIKE"}
 var symOps = []string{"=", "!=", "<", "<=", ">", ">="}
 
@@ -315,6 +370,11 @@ func (g *gen) cond() string {
 			name, exact, haveExact = n, v, r.Chance(2, 3)
 		}
 		pre := r.PickStr("fields:", "fields:", "Fields:", "FIELDS:")
+		if fn, fv, ok := g.someField(); ok && !g.nolike && g.maxNest > 0 && likeable(fv) && r.Chance(1, 6) {
+			// UPPER/LOWER nest with LIKE, the pattern made from a value the field really has, in the case the
+			// outermost function produces: the answer depends on the function being applied on this operator path too
+			return g.likeOnFunc(pre, fn, fv)
+		}
 		if n, ok := g.valueThatIsAName(); ok && r.Chance(1, 4) {
 			// the queried name occurs as a value: the answer is the field of that name (or ""), never what follows the value
 			op := r.PickStr("=", "!=", "=", "<=", ">")
